@@ -162,6 +162,20 @@ Definition class_refresh (before : tdump) : bool :=
       | _ => false
       end) (snd kt)) before.
 
+(** class 6 (C12_5): a leaf at meta/serverName that is not a string, or at
+    meta/latency/window/<w>/<stat> that is not an int, read back by the
+    metadata refresh of a cache created with the corresponding option *)
+Definition class_refresh5 (before : tdump) : bool :=
+  existsb (fun kt =>
+    existsb (fun l =>
+      match fst (fst l) with
+      | [p0; k] => String.eqb p0 md_root && String.eqb k md_server_name && negb (is_str (snd l))
+      | [p0; k1; k2; _; _] =>
+          String.eqb p0 md_root && String.eqb k1 md_latency && String.eqb k2 md_window &&
+          negb (is_int (snd l))
+      | _ => false
+      end) (snd kt)) before.
+
 (** class 5 (C12_4): a group display of an update / delete whose full path is
     empty *)
 Definition full_path_empty (n : cnotif) : bool :=
@@ -198,32 +212,34 @@ Definition ingest_known (before : tdump) (n : notif) : N :=
   else if class_equal before n then 3%N
   else 0%N.
 
-Fixpoint check_ingest (i : nat) (c : cstate) (before : tdump) (steps : list (iop * iobs))
+Fixpoint check_ingest (fl : flags) (i : nat) (c : cstate) (before : tdump) (steps : list (iop * iobs))
   : list (nat * N) :=
   match steps with
   | [] => []
   | (IMsg n, OIngest r od) :: rest =>
       let d := match od with Some x => x | None => before end in
-      let '(c', g) := ingest cur_flags c n in
+      let '(c', g) := ingest fl c n in
       let v1 := if rclass_eqb r (rclass_of g) && tdump_eqb d (model_dump c') then [] else [(i, 1%N)] in
       let v2 := match r with
                 | RPanic => map (fun t => (i, t)) (panic_tag (ingest_known before n))
                 | _ => if all_rejected n r && negb (tdump_eqb d before) then [(i, 3%N)] else []
                 end in
-      v1 ++ v2 ++ check_ingest (S i) c' d rest
+      v1 ++ v2 ++ check_ingest fl (S i) c' d rest
   | (IRefresh, ORefresh p) :: rest =>
-      let v1 := if Bool.eqb p (match refresh c with Panic _ => true | _ => false end)
+      let v1 := if Bool.eqb p (match refresh fl c with Panic _ => true | _ => false end)
                 then [] else [(i, 1%N)] in
-      let v2 := if p then map (fun t => (i, t)) (panic_tag (if class_refresh before then 4%N else 0%N))
+      let v2 := if p then map (fun t => (i, t)) (panic_tag (if class_refresh before then 4%N
+                                                       else if class_refresh5 before then 6%N else 0%N))
                 else [] in
-      v1 ++ v2 ++ check_ingest (S i) c before rest
-  | _ :: rest => (i, 1%N) :: check_ingest (S i) c before rest      (* ill-formed step *)
+      v1 ++ v2 ++ check_ingest fl (S i) c before rest
+  | _ :: rest => (i, 1%N) :: check_ingest fl (S i) c before rest      (* ill-formed step *)
   end.
 
 (** * Cases *)
 
 Inductive case :=
-| CIngest (targets : list string) (steps : list (iop * iobs))
+| CIngest (opts : bool * bool * bool)     (* cache options: server name, latency window, event-driven *)
+          (targets : list string) (steps : list (iop * iobs))
 | CSub (e : senv) (f : first_recv) (o : oclass) (code : N) (synced : bool)
 | CRecv (jvalid : list string) (qt : qtype) (rs : list resp)
         (o : oclass) (evs : list event) (leaves : list path)
@@ -276,9 +292,10 @@ Fixpoint check_mgr (i : nat) (rs : list (resp * (oclass * N))) : list (nat * N) 
 
 Definition check_case (c : case) : list (nat * N) :=
   match c with
-  | CIngest targets steps =>
+  | CIngest opts targets steps =>
       let c0 := new_cstate targets in
-      let res := check_ingest 0 c0 (model_dump c0) steps in
+      let fl := cur_flags_with (fst (fst opts)) (snd (fst opts)) (snd opts) in
+      let res := check_ingest fl 0 c0 (model_dump c0) steps in
       (* a target registered under the empty name (an operator's doing) is
          outside the property: only the correspondence is checked *)
       if existsb (String.eqb "") targets then filter (fun r => N.eqb (snd r) 1) res else res
